@@ -795,3 +795,57 @@ def rule_blocklabels(ctx) -> RuleResult:
                        "with sort=False (first-appearance order) a block whose labels do not first appear in ascending order -- e.g. a missing label, coded -1, "
                        "that is not the block's first element -- has its values paired with the wrong labels (method='blockwise')")
     return res
+
+
+# ---------------------------------------------------------------------------------------------
+# R-AXISRANGE (C19, C08): groupby_reduce only reduces along axes that the labels cover.
+# The labels are aligned with the *trailing* dimensions of the array.  An `axis` outside them cannot be honoured without broadcasting the
+# labels; the kernels simply collapse the last len(axis) dimensions, so axis=0 with 1-D labels silently reduces along the label axis instead.
+# A refusal relating the axis entries to array.ndim - <labels>.ndim must dominate every kernel / graph entry.
+def rule_axisrange(ctx) -> RuleResult:
+    res = RuleResult("R-AXISRANGE", "an axis outside the dimensions covered by the labels is refused before any kernel runs", min_instances=1)
+    from ..cfg import CFG, node_exprs
+    f = ctx.prog.func("core.groupby_reduce")
+    arr = f.params[0]
+    cfg = CFG(f)
+    dom = cfg.dominators()
+    guards = {}
+    for st in walk_own(f.node):
+        if not (isinstance(st, ast.If) and any(isinstance(r, ast.Raise) and r.exc is not None
+                                                and norm(r.exc.func if isinstance(r.exc, ast.Call) else r.exc) in ("ValueError", "NotImplementedError")
+                                                for b in st.body for r in ast.walk(b))):
+            continue
+        t = norm(st.test)
+        ndims = [x for x in ast.walk(st.test) if isinstance(x, ast.Attribute) and x.attr == "ndim"]
+        bases = {norm(x.value) for x in ndims}
+        has_lower_bound = any(isinstance(c, ast.Compare) and any(isinstance(o, (ast.Lt, ast.LtE, ast.Gt, ast.GtE)) for o in c.ops) for c in ast.walk(st.test))
+        if arr in bases and len(bases) >= 2 and "ax" in t and has_lower_bound and any(isinstance(x, (ast.GeneratorExp, ast.ListComp)) for x in ast.walk(st.test)):
+            for n in cfg.nodes:
+                if n.kind == "test" and n.ast is not None and any(x is n.ast for x in ast.walk(st.test)):
+                    guards[n.id] = t[:70]
+    sinks = []
+    for n in cfg.nodes:
+        for e in node_exprs(n):
+            for c in ast.walk(e):
+                if isinstance(c, ast.Call) and norm(c.func) in _KERNEL_ENTRIES:
+                    sinks.append((n, c))
+    if not sinks:
+        raise AnalysisError("core.groupby_reduce: no kernel / graph entry call found (anchor)")
+    for n, c in sinks:
+        # the refusal sits on the `axis is not None` arm: it dominates modulo that test; accept a guard whose enclosing if-arm is the
+        # else-arm of a test on the axis parameter, or a plain dominator
+        ok = [g for d, g in guards.items() if d in dom.get(n.id, ())]
+        if not ok and guards:
+            pm = parents_map(f.node)
+            for st in walk_own(f.node):
+                if isinstance(st, ast.If) and "axis is None" in norm(st.test):
+                    inner = [x for b in st.orelse for x in ast.walk(b) if isinstance(x, ast.If) and norm(x.test)[:70] in guards.values()]
+                    if inner and any(cfg.nodes[d].kind == "test" and cfg.nodes[d].ast is not None and any(x is cfg.nodes[d].ast for x in ast.walk(st.test))
+                                     for d in dom.get(n.id, ())):
+                        ok = [norm(inner[0].test)[:70] + "  [on the 'axis is not None' arm; axis=None means all label axes]"]
+        res.inst(f"groupby_reduce: {norm(c.func)}(...) preceded by an axis-range refusal: {ok[:1] or False}", f"sink|{norm(c.func)}")
+        if not ok:
+            res.report(f"core.groupby_reduce|axis-outside-labels|{norm(c.func)}", f.where(c), f.qualname,
+                       f"'{norm(c.func)}(…)' is reached without a refusal of axes that the labels do not cover (ax < {arr}.ndim - <labels>.ndim): "
+                       "groupby_reduce(array(3, 4), labels(4,), axis=0) silently reduces along the label axis, the same answer as axis=-1")
+    return res
